@@ -22,9 +22,13 @@ CLAUSE → THEOREM TABLE (review R1; property text in properties.jsonl, id C06; 
   (5) "within each control-feature stratum"                                        `eventOf_some`, `inE_stratum`-based
         selectors `tpr/fpr_event_selects_in_stratum`, `Moments.eo_inE_stratum`, `Cross.dp_event_selects_in_stratum`
   (6) "rows outside the conditioned label class belong to no event"                `eventOf_none_iff`,
-        `index_ignores_no_event_rows`, `no_event_rows_inert`; F3 regression witnesses `asCoded_*`
+        `index_ignores_no_event_rows`, `no_event_rows_inert`; F3 regression witnesses `asCoded_*`;
+        TIE of (5)/(6): `event_rule_lifted` — the rule LIFTED from `_merge_event_and_control_columns` /
+        `_combine_event_and_control` incl. the notnull guard (`MomentsSrc.mergeEvent/combineEvent`; what the driver runs)
+        equals `eventOf`; `lifted_rule_has_guard`
   (7) "bound() is the configured slack on every entry"                             `bound_const`, `config_cases`,
-        `config_ratio_in_range`, `bound_of_config` (difference_bound → eps = difference_bound, ratio 1;
+        `config_ratio_in_range`, `config_slack_nonneg`, `bound_of_config` (`mkConfig` is computed with the constructor
+        branches LIFTED from `UtilityParity.__init__`, incl. the negative-slack guard; difference_bound → eps = difference_bound, ratio 1;
         ratio_bound → eps = ratio_bound_slack, ratio = ratio_bound; neither → 1/100 (lifted), ratio 1)
   (8) "BoundedGroupLoss.gamma is the per-group mean clipped loss"                  `bgl_gamma`, `loss_values` (clipping,
         lo ≤ hi), `loss_in_declared_range`, `evalS_eq_eval`, `eval_container_dependent` (F21), `zero_one_loss`,
@@ -76,6 +80,25 @@ theorem baseEvent_cases (k : Kind) (r : Row) :
       | .tpr => if r.y = 1 then some (MomentsSrc.labelEvent 1) else none
       | .fpr => if r.y = 0 then some (MomentsSrc.labelEvent 0) else none := by
   cases k <;> simp [baseEvent, MomentsSrc.tprLabel, MomentsSrc.fprLabel] <;> split <;> simp_all
+
+/-- **the tie of (5)/(6) to the source**: the event rule LIFTED from `_merge_event_and_control_columns` and
+    `_combine_event_and_control` (`MomentsSrc.mergeEvent` / `combineEvent`: no control column ⇒ the base event; a NaN /
+    None base event or control value ⇒ the base event unchanged — the `pd.notnull` guard of the F3 repair b40710c;
+    otherwise `control={0},{1}`), which is what the compiled driver runs in mode `spec`, IS the documented rule
+    `eventOf`.  Every theorem below about `eventOf` is therefore a theorem about the text in the tree; reverting the
+    guard (or exchanging the format arguments / the `combine` receiver) changes the lifted text and this proof breaks. -/
+theorem event_rule_lifted (k : Kind) (r : Row) : eventOfSrc k r = eventOf k r := by
+  unfold eventOfSrc eventOf MomentsSrc.mergeEvent MomentsSrc.combineEvent MomentsSrc.txt
+  cases baseEvent k r <;> cases r.c <;> simp
+
+theorem event_rule_lifted_fun (k : Kind) : eventOfSrc k = eventOf k := funext (event_rule_lifted k)
+
+/-- the lifted rule keeps a row outside the conditioned label class event-free inside a control stratum (F3 repaired),
+    where the un-guarded format call produced the event `control=x,nan` -/
+theorem lifted_rule_has_guard :
+    eventOfSrc .tpr ⟨0, "b", some "x"⟩ = none ∧ eventOfAsCoded .tpr ⟨0, "b", some "x"⟩ = some "control=x,nan" ∧
+    eventOfSrc .tpr ⟨1, "a", some "x"⟩ = some "control=x,label=1" := by
+  refine ⟨?_, ?_, ?_⟩ <;> decide +kernel
 
 /-- without control features, and for the moments that condition on nothing or on every label, the code
     as written agrees with the documented rule -/
@@ -248,23 +271,43 @@ theorem bound_const (ev : Ev) (rows : List Row) (eps : Rat) :
   simp [bound]
 
 /-- the slack is `difference_bound`, or `ratio_bound_slack` with ratio `ratio_bound ∈ (0,1]`, or the default
-    difference bound; anything else is rejected -/
+    difference bound; a negative slack (fairlearn c80f72a) and anything else is rejected.  `mkConfig` is computed with
+    the branches LIFTED from `UtilityParity.__init__` (`parityCtor`, `parityEps`, `slackMustBeNonneg` of
+    `Generated/ValidationTables.lean`, `parityRatio` of `Generated/MomentsSrc.lean`): this theorem is the tie of (7) -/
 theorem config_cases (d r : Option Rat) (s : Rat) :
     mkConfig d r s = match d, r with
       | none, none => .ok (MomentsSrc.defaultDifferenceBound, 1)
-      | some d, none => .ok (d, 1)
-      | none, some r => if 0 < r ∧ r ≤ 1 then .ok (s, r) else .error .ratioRange
+      | some d, none => if d < 0 then .error .negSlack else .ok (d, 1)
+      | none, some r => if 0 < r ∧ r ≤ 1 then (if s < 0 then .error .negSlack else .ok (s, r)) else .error .ratioRange
       | some _, some _ => .error .bothBounds := by
-  cases d <;> cases r <;> rfl
+  cases d <;> cases r <;>
+    simp [mkConfig, Generated.ValidationTables.parityCtor, Generated.ValidationTables.parityEps,
+      Generated.ValidationTables.slackMustBeNonneg, MomentsSrc.parityRatio, MomentsSrc.defaultDifferenceBound]
 
 theorem config_ratio_in_range (d r : Option Rat) (s eps ratio : Rat) (h : mkConfig d r s = .ok (eps, ratio)) :
     0 < ratio ∧ ratio ≤ 1 := by
-  cases d <;> cases r <;> simp only [mkConfig] at h
+  rw [config_cases] at h
+  cases d <;> cases r <;> simp only at h
   · cases h; norm_num
   · split at h
-    · next hr => cases h; exact hr
+    · next hr => split at h <;> cases h; exact hr
     · cases h
-  · cases h; norm_num
+  · split at h <;> cases h; norm_num
+  · cases h
+
+/-- an accepted configuration has a non-negative slack (the guard `if self.eps < 0: raise`, lifted) -/
+theorem config_slack_nonneg (d r : Option Rat) (s eps ratio : Rat) (h : mkConfig d r s = .ok (eps, ratio)) : 0 ≤ eps := by
+  rw [config_cases] at h
+  cases d <;> cases r <;> simp only at h
+  · cases h; simp [MomentsSrc.defaultDifferenceBound]
+  · split at h
+    · split at h
+      · cases h
+      · next hs => cases h; exact not_lt.mp hs
+    · cases h
+  · split at h
+    · cases h
+    · next hd => cases h; exact not_lt.mp hd
   · cases h
 
 /-! ### loss moments and the objective -/
@@ -742,32 +785,34 @@ theorem bound_of_config (d r : Option Rat) (s eps ratio : Rat) (h : mkConfig d r
     (∀ x, d = some x → eps = x ∧ ratio = 1 ∧ r = none) ∧
     (∀ x, r = some x → eps = s ∧ ratio = x ∧ d = none ∧ 0 < x ∧ x ≤ 1) ∧
     (d = none → r = none → eps = MomentsSrc.defaultDifferenceBound ∧ ratio = 1) := by
+  rw [config_cases] at h
   refine ⟨bound_const ev rows eps, ?_, ?_, ?_⟩
   · intro x hd
     subst hd
-    cases r <;> simp only [mkConfig] at h
-    · cases h; exact ⟨rfl, rfl, rfl⟩
+    cases r <;> simp only at h
+    · split at h <;> cases h; exact ⟨rfl, rfl, rfl⟩
     · cases h
   · intro x hr
     subst hr
-    cases d <;> simp only [mkConfig] at h
+    cases d <;> simp only at h
     · split at h
-      · next hx => cases h; exact ⟨rfl, rfl, rfl, hx⟩
+      · next hx => split at h <;> cases h; exact ⟨rfl, rfl, rfl, hx⟩
       · cases h
     · cases h
   · intro hd hr
     subst hd; subst hr
-    simp only [mkConfig] at h
+    simp only at h
     cases h; exact ⟨rfl, rfl⟩
 
 example : mkConfig none (some (4/5)) (1/8) = .ok (1/8, 4/5) ∧ mkConfig (some (1/4)) none 7 = .ok (1/4, 1) ∧
     mkConfig none none 7 = .ok (1/100, 1) ∧ mkConfig none (some 0) 0 = .error .ratioRange ∧
-    mkConfig none (some (3/2)) 0 = .error .ratioRange := by decide +kernel
+    mkConfig none (some (3/2)) 0 = .error .ratioRange ∧ mkConfig (some (-1/8)) none 0 = .error .negSlack ∧
+    mkConfig none (some (1/2)) (-1/8) = .error .negSlack ∧ mkConfig (some 0) none 0 = .ok (0, 1) := by decide +kernel
 
 /-- `ErrorRate(costs=…)` accepts the costs iff both are non-negative and not both zero (the driver op `mom.err.costs`
     evaluates `costsOk`) -/
 theorem costs_ok_iff (fp fn : Rat) : costsOk fp fn = true ↔ 0 ≤ fp ∧ 0 ≤ fn ∧ 0 < fp + fn := by
-  simp [costsOk, and_assoc]
+  simp [costsOk, Generated.ValidationTables.errorRateCtor, and_assoc]
 
 example : costsOk 0 2 = true ∧ costsOk 0 0 = false ∧ costsOk (-1) 2 = false := by decide +kernel
 
